@@ -40,6 +40,8 @@ type Root struct {
 	Opt    string            `hcl:"opt,optional"`
 	Tags   map[string]string `hcl:"tags,optional"`
 	List   []string          `hcl:"list,optional"`
+	Req    []string          `hcl:"req"`
+	ReqMap map[string]string `hcl:"reqmap"`
 	Inner  *Inner            `hcl:"inner,block"`
 	Items  []Item            `hcl:"item,block"`
 	PItems []*Item           `hcl:"pitem,block"`
@@ -67,6 +69,19 @@ func build(v map[string]any) *Root {
 	}
 	for _, s := range tla.Seq(v["list"]) {
 		r.List = append(r.List, str(tla.Int(s)))
+	}
+	if rq := tla.Rec(v["req"]); !tla.Bool(rq["nil"]) {
+		r.Req = []string{}
+		for _, s := range tla.Seq(rq["e"]) {
+			r.Req = append(r.Req, str(tla.Int(s)))
+		}
+	}
+	if rq := tla.Rec(v["reqmap"]); !tla.Bool(rq["nil"]) {
+		r.ReqMap = map[string]string{}
+		for _, t := range tla.Seq(rq["e"]) {
+			m := tla.Rec(t)
+			r.ReqMap[str(tla.Int(m["k"]))] = str(tla.Int(m["v"]))
+		}
 	}
 	in := tla.Rec(v["inner"])
 	if tla.Bool(in["set"]) {
@@ -142,6 +157,16 @@ func jsonOf(r *Root) []byte {
 			t[esc(k)] = esc(v)
 		}
 		add("tags", t)
+	}
+	if r.Req != nil {
+		add("req", r.Req)
+	} else {
+		add("req", nil)
+	}
+	if r.ReqMap != nil {
+		add("reqmap", r.ReqMap)
+	} else {
+		add("reqmap", nil)
 	}
 	if r.List != nil {
 		l := []string{}
